@@ -4,12 +4,13 @@
 # private copies of the Coq build and work directories (so /repo, /verif/coq
 # and /verif/evidence are untouched).  Prints one line per property.
 patch="$1"; tier="$2"; shift 2
+V="$(cd "$(dirname "$0")/.." && pwd)"
 S=$(mktemp -d /tmp/mr.XXXXXX)
 git -C /repo worktree add -q --detach "$S/repo" HEAD || exit 2
 if ! git -C "$S/repo" apply "$patch" 2>/dev/null && ! git -C "$S/repo" apply --3way "$patch"; then echo "PATCH DOES NOT APPLY"; git -C /repo worktree remove --force "$S/repo"; rm -rf "$S"; exit 2; fi
-cp -r /verif/coq "$S/coq"
+cp -r "$V/coq" "$S/coq"
 for p in "$@"; do
-  VERIF_REPO="$S/repo" VERIF_COQ="$S/coq" VERIF_WORK="$S/work" timeout 3000 /verif/check "$p" --tier "$tier" > "$S/$p.log" 2>&1
+  VERIF_REPO="$S/repo" VERIF_COQ="$S/coq" VERIF_WORK="$S/work" timeout 3000 "$V/check" "$p" --tier "$tier" > "$S/$p.log" 2>&1
   rc=$?
   echo "== $p rc=$rc $(grep -c '^VIOLATION' "$S/$p.log") violation line(s): $(grep '^VIOLATION\|^KNOWN' "$S/$p.log" | head -3 | tr '\n' ' ')"
   tail -1 "$S/$p.log"
